@@ -20,6 +20,8 @@ import Rc.Drv.C16
 import Rc.Drv.C09
 import Rc.Drv.C20
 import Rc.Drv.C07
+import Rc.Drv.C01
+import Rc.Drv.C02
 import Rc.Drv.C18
 
 def dispatch (prop : String) : Option (List String → String) :=
@@ -41,6 +43,8 @@ def dispatch (prop : String) : Option (List String → String) :=
   | "C09" => some Rc.Drv.C09.handle
   | "C20" => some Rc.Drv.C20.handle
   | "C07" => some Rc.Drv.C07.handle
+  | "C01" => some Rc.Drv.C01.handle
+  | "C02" => some Rc.Drv.C02.handle
   | "C18" => some Rc.Drv.C18.handle
   | _ => none
 
